@@ -72,8 +72,6 @@ def main(argv):
             for r in thorough.seeds(argv[1] if len(argv) > 1 else None, workers=4):
                 exp = r.get('expected') or []
                 good = (r['status'] == 'alarm' and (r.get('target') in r.get('props', []) or (exp and set(exp) <= set(r.get('props', []))))) or (not exp and r['status'] in ('silent', 'undecided'))
-                if r.get('seed', '').startswith('C09-') and r['status'] == 'silent':
-                    good = True   # detected by the bounded check, not by Verus
                 ok = ok and good
                 print('%-7s %-9s props=%s expected=%s %s' % (r['seed'], r['status'], r.get('props'), exp, '' if good else '  <-- UNEXPECTED'))
             return 0 if ok else 1
